@@ -279,6 +279,12 @@ pub fn check_table(w : &World, blob : &Blob, v : &mut Vec<Violation>, site : &st
 
 pub fn run_rule_step(pre : &PreD, omit : [bool; 2], fail : bool, truthful : bool) -> Vec<Violation>
 {
+    run_rule_step_hooked(pre, omit, fail, truthful, vec![], 0)
+}
+
+/*  peer steps: (go, slot k, add, mtime, exec) in the order SymSystem drew them */
+pub fn run_rule_step_hooked(pre : &PreD, omit : [bool; 2], fail : bool, truthful : bool, peer : Vec<crate::hooksys::Peer>, budget : u32) -> Vec<Violation>
+{
     let w = build_world(pre);
     let mut v = vec![];
     let n = pre.ntargets;
@@ -287,8 +293,15 @@ pub fn run_rule_step(pre : &PreD, omit : [bool; 2], fail : bool, truthful : bool
     let other_before = snap(&w.root, "c");
     let cache_before : Vec<bool> = (0..5).map(|k| pre.cache[k].present).collect();
 
-    let mut sys = w.root.clone();
-    sys.time_passes(1_000_000u64 * (pre.fresh as u64));
+    let mut base = w.root.clone();
+    base.time_passes(1_000_000u64 * (pre.fresh as u64));
+    let sys = crate::hooksys::HookSystem::new(base, &format!("{}/", CACHE));
+    let interfering = budget > 0;
+    {
+        let mut h = sys.hooks.lock().unwrap();
+        h.peer = peer.into_iter().collect();
+        h.budget = budget;
+    }
     let mut info = HandleNodeInfo::new(sys.clone());
     info.blob = blob_of(pre);
     let ext = RuleExt
@@ -302,6 +315,44 @@ pub fn run_rule_step(pre : &PreD, omit : [bool; 2], fail : bool, truthful : bool
     };
     let r = handle_rule_node(info, ext);
     let log = w.root.get_command_log();
+    let peer_log = sys.hooks.lock().unwrap().peer_log.clone();
+    if interfering
+    {
+        /*  under interference only the schedule-independence clauses are judged */
+        let mut v = vec![];
+        if let Some(msg) = cache_misfiled(&w.root)
+        {
+            v.push(Violation { properties : vec!["C07", "C06"], role : "under interference: cache entry filed under the hash of other content".into(), what : msg });
+        }
+        match &r
+        {
+            Err(e) if !fail && !omit[0] && !omit[1] =>
+            {
+                let msg = format!("{}", e);
+                let role = if msg.contains("rename a non-existent") { "restore_file: cache entry taken by a peer between is_file and rename" }
+                           else { "rule fails under cache interference by a peer" };
+                v.push(Violation { properties : vec!["C06"], role : role.into(),
+                    what : format!("peer steps {:?}; the rule then fails with: {} (without the peer step, or with it one call earlier, the rule succeeds)", peer_log, msg) });
+            },
+            Ok(result) =>
+            {
+                for i in 0..n
+                {
+                    let s = snap(&w.root, WS[i]);
+                    if s.present && result.file_state_vec.get_ticket(i) != hash_bytes(&s.bytes)
+                    {
+                        v.push(Violation { properties : vec!["C06", "C01"], role : "under interference: hash handed to dependents is not the hash of the target".into(), what : format!("{:?}", peer_log) });
+                    }
+                    if !s.present
+                    {
+                        v.push(Violation { properties : vec!["C06", "C01"], role : "under interference: rule succeeded with a missing target".into(), what : format!("{:?}", peer_log) });
+                    }
+                }
+            },
+            _ => {},
+        }
+        return v;
+    }
     check_monitors(&w, &before_contents, &other_before, &mut v, "handle_rule_node");
     if log.len() > 1
     {
@@ -596,14 +647,14 @@ pub fn run_leaf_step(pre : &PreD) -> Vec<Violation>
 }
 
 /*  ---- C12: the real sorter on the solver's rule set, judged by the shared oracle ---- */
-pub fn run_sort_case(bytes : &[u8], two_target_rule : bool, fixed_n : Option<usize>, fixed_ns : Option<usize>) -> Vec<Violation>
+pub fn run_sort_case(bytes : &[u8], two_target_rule : bool, fixed_n : Option<usize>, fixed_ns : Option<usize>, fixed_targets : bool) -> Vec<Violation>
 {
     use crate::sortcase::{self, Expect, NR};
     use crate::rule::Rule;
     use crate::sort::{topological_sort, topological_sort_all, TopologicalSortError, SourceIndex};
     let mut raw = Raw { bytes : [0u8; NRAW], pos : 0 };
     for (i, b) in bytes.iter().enumerate().take(NRAW) { raw.bytes[i] = *b; }
-    let c = sortcase::decode(&mut raw, two_target_rule, fixed_n, fixed_ns);
+    let c = sortcase::decode_ex(&mut raw, two_target_rule, fixed_n, fixed_ns, fixed_targets);
     let name = |b : u8| -> String { (b as char).to_string() };
     let order = sortcase::input_order(&c);
     let mut rules = vec![];
@@ -682,6 +733,295 @@ pub fn run_sort_case(bytes : &[u8], two_target_rule : bool, fixed_n : Option<usi
     v
 }
 
+/*  ---- C13: rule identity, natively (real SHA-256) ---- */
+fn ident_strings(bytes : &[u8], pos : &mut usize, n : usize) -> Vec<String>
+{
+    /*  one L = two S; one S = len (usize, 8 bytes LE), two alphabet indices */
+    let alpha = [b'a', b'b', b':', b' '];
+    let mut out = vec![];
+    for q in 0..2
+    {
+        let len = bytes.get(*pos).cloned().unwrap_or(1) as usize;
+        let c0 = alpha[(bytes.get(*pos + 8).cloned().unwrap_or(0) % 4) as usize];
+        let c1 = alpha[(bytes.get(*pos + 9).cloned().unwrap_or(0) % 4) as usize];
+        *pos += 10;
+        if q < n
+        {
+            let mut s = String::new();
+            s.push(c0 as char);
+            if len == 2 { s.push(c1 as char); }
+            out.push(s);
+        }
+    }
+    out
+}
+
+pub fn run_identity_case(harness : &str, bytes : &[u8]) -> Vec<Violation>
+{
+    use crate::rule::Rule;
+    let digits : Vec<usize> = harness.chars().filter(|c| c.is_ascii_digit()).map(|c| c.to_digit(10).unwrap() as usize).collect();
+    let mut v = vec![];
+    let mut pos = 0;
+    if harness.starts_with("canon_") && digits.len() >= 3
+    {
+        let (t, s, c) = (ident_strings(bytes, &mut pos, digits[0]), ident_strings(bytes, &mut pos, digits[1]), ident_strings(bytes, &mut pos, digits[2]));
+        let (mut ts, mut ss) = (t.clone(), s.clone());
+        ts.sort();
+        ss.sort();
+        let a = Rule::new(t.clone(), s.clone(), c.clone()).get_ticket();
+        let b = Rule::new(ts, ss, c.clone()).get_ticket();
+        if a != b
+        {
+            v.push(Violation { properties : vec!["C13"], role : "get_ticket: re-ordering target or source lines changes the identity".into(),
+                what : format!("targets {:?} sources {:?} command {:?}: identity {} but {} with the lists sorted", t, s, c, a, b) });
+        }
+    }
+    else if digits.len() >= 6
+    {
+        let t1 = ident_strings(bytes, &mut pos, digits[0]); let s1 = ident_strings(bytes, &mut pos, digits[1]); let c1 = ident_strings(bytes, &mut pos, digits[2]);
+        let t2 = ident_strings(bytes, &mut pos, digits[3]); let s2 = ident_strings(bytes, &mut pos, digits[4]); let c2 = ident_strings(bytes, &mut pos, digits[5]);
+        let canon = |t : &Vec<String>, s : &Vec<String>| { let (mut a, mut b) = (t.clone(), s.clone()); a.sort(); b.sort(); (a, b) };
+        let same_rule = canon(&t1, &s1) == canon(&t2, &s2) && c1 == c2;
+        let a = Rule::new(t1.clone(), s1.clone(), c1.clone()).get_ticket();
+        let b = Rule::new(t2.clone(), s2.clone(), c2.clone()).get_ticket();
+        if same_rule != (a == b)
+        {
+            v.push(Violation { properties : vec!["C13"], role : if same_rule { "rule identity: two spellings of one rule differ".to_string() } else { "rule identity: two different rules share one identity".to_string() },
+                what : format!("rule 1: targets {:?} sources {:?} command {:?}; rule 2: targets {:?} sources {:?} command {:?}; identities {} and {}", t1, s1, c1, t2, s2, c2, a, b) });
+        }
+    }
+    v
+}
+
+/*  ---- C17a: the real RuleHistory::insert, natively ---- */
+pub fn run_history_insert_case(bytes : &[u8]) -> Vec<Violation>
+{
+    use crate::history::RuleHistoryInsertError;
+    let g = |i : usize| bytes.get(i).cloned().unwrap_or(0);
+    let n_old = (g(0) as usize).clamp(1, 3);
+    let n_new = (g(8) as usize).clamp(1, 3);
+    let old : Vec<u8> = (0..3).map(|i| g(16 + i) % 5).collect();
+    let new : Vec<u8> = (0..3).map(|i| g(19 + i) % 5).collect();
+    let has_entry = g(22) != 0;
+    let key = TicketFactory::from_str("key").result();
+    let mut h = RuleHistory::new();
+    h.insert(TicketFactory::from_str("other").result(), FileStateVec::from_ticket_vec(vec![hash_content(0)])).unwrap();
+    if has_entry
+    {
+        h.insert(key.clone(), FileStateVec::from_ticket_vec((0..n_old).map(|i| hash_content(old[i])).collect())).unwrap();
+    }
+    let r = h.insert(key.clone(), FileStateVec::from_ticket_vec((0..n_new).map(|i| hash_content(new[i])).collect()));
+    let mut v = vec![];
+    let mut bad = |role : &str, what : String| v.push(Violation { properties : vec!["C17"], role : role.to_string(), what });
+    let shown = format!("existing entry {:?} (present: {}), inserting {:?}", &old[..n_old], has_entry, &new[..n_new]);
+    if has_entry
+    {
+        let kept = h.get_file_state_vec(&key).map(|e| (0..n_old).all(|i| e.get_ticket(i) == hash_content(old[i]))).unwrap_or(false);
+        if !kept { bad("RuleHistory::insert: the earlier record was modified or lost", shown.clone()); }
+        if n_old == n_new
+        {
+            let diff : Vec<usize> = (0..n_new).filter(|i| old[*i] != new[*i]).collect();
+            match r
+            {
+                Ok(()) => if !diff.is_empty() { bad("RuleHistory::insert: differing outputs silently accepted", shown.clone()); },
+                Err(RuleHistoryInsertError::Contradiction(idx)) => if idx != diff { bad("RuleHistory::insert: contradiction does not list exactly the differing targets", format!("{} -> {:?}, differing {:?}", shown, idx, diff)); },
+                Err(_) => bad("RuleHistory::insert: equal target counts reported as differing", shown.clone()),
+            }
+        }
+        else if !matches!(r, Err(RuleHistoryInsertError::TargetSizesDifferWeird))
+        {
+            bad("RuleHistory::insert: differing target counts not reported", shown.clone());
+        }
+    }
+    else if r.is_err() || h.get_file_state_vec(&key).map(|e| (0..n_new).all(|i| e.get_ticket(i) == hash_content(new[i]))) != Some(true)
+    {
+        bad("RuleHistory::insert: recording outputs for new sources failed or recorded other hashes", shown.clone());
+    }
+    v
+}
+
+/*  ---- C11 start-up: directory::init from a partial ruler directory, natively ---- */
+pub fn run_init_case(bytes : &[u8]) -> Vec<Violation>
+{
+    let d = [bytes.get(0).cloned().unwrap_or(0) != 0, bytes.get(1).cloned().unwrap_or(0) != 0, bytes.get(2).cloned().unwrap_or(0) != 0];
+    let mut sys = FakeSystem::new(10);
+    let names = [".ruler", ".ruler/cache", ".ruler/history"];
+    for i in 0..3 { if d[i] && (i == 0 || d[0]) { sys.create_dir(names[i]).unwrap(); } }
+    let r = crate::directory::init(&mut sys, ".ruler");
+    let mut v = vec![];
+    let shown = format!("before start-up: {:?} present = {:?}", names, d);
+    match r
+    {
+        Ok(_) =>
+        {
+            for n in names.iter()
+            {
+                if !sys.is_dir(n)
+                {
+                    v.push(Violation { properties : vec!["C11"], role : "directory::init: start-up succeeds on a partly created ruler directory but leaves a sub-directory missing".into(),
+                        what : format!("{}; afterwards {} is still missing (the next build's cache/history writes fail)", shown, n) });
+                    break;
+                }
+            }
+        },
+        Err(e) => v.push(Violation { properties : vec!["C11"], role : "directory::init: start-up fails on a partly created ruler directory".into(), what : format!("{} -> {}", shown, e) }),
+    }
+    v
+}
+
+/*  ---- C15b: from_file under the solver's short-read pattern, natively (real SHA-256) ---- */
+#[derive(Clone)]
+pub struct ChunkSys { pub chunks : std::sync::Arc<Vec<Vec<u8>>> }
+#[derive(Debug)]
+pub struct ChunkFile { chunks : std::sync::Arc<Vec<Vec<u8>>>, next : usize }
+impl std::io::Read for ChunkFile
+{
+    fn read(&mut self, buf : &mut [u8]) -> std::io::Result<usize>
+    {
+        if self.next >= self.chunks.len() { return Ok(0); }
+        let c = &self.chunks[self.next];
+        self.next += 1;
+        let k = std::cmp::min(c.len(), buf.len());
+        buf[..k].copy_from_slice(&c[..k]);
+        /*  whatever lies beyond the bytes read is not part of the file */
+        for b in buf[k..].iter_mut() { *b = 0xEE; }
+        Ok(k)
+    }
+}
+impl std::io::Write for ChunkFile
+{
+    fn write(&mut self, b : &[u8]) -> std::io::Result<usize> { Ok(b.len()) }
+    fn flush(&mut self) -> std::io::Result<()> { Ok(()) }
+}
+impl System for ChunkSys
+{
+    type File = ChunkFile;
+    fn open(&self, _p : &str) -> Result<Self::File, crate::system::SystemError> { Ok(ChunkFile { chunks : self.chunks.clone(), next : 0 }) }
+    fn create_file(&mut self, _p : &str) -> Result<Self::File, crate::system::SystemError> { Err(crate::system::SystemError::NotImplemented) }
+    fn create_dir(&mut self, _p : &str) -> Result<(), crate::system::SystemError> { Err(crate::system::SystemError::NotImplemented) }
+    fn is_dir(&self, _p : &str) -> bool { false }
+    fn is_file(&self, _p : &str) -> bool { true }
+    fn remove_file(&mut self, _p : &str) -> Result<(), crate::system::SystemError> { Err(crate::system::SystemError::NotImplemented) }
+    fn remove_dir(&mut self, _p : &str) -> Result<(), crate::system::SystemError> { Err(crate::system::SystemError::NotImplemented) }
+    fn list_dir(&self, _p : &str) -> Result<Vec<String>, crate::system::SystemError> { Err(crate::system::SystemError::NotImplemented) }
+    fn rename(&mut self, _f : &str, _t : &str) -> Result<(), crate::system::SystemError> { Err(crate::system::SystemError::NotImplemented) }
+    fn get_modified(&self, _p : &str) -> Result<std::time::SystemTime, crate::system::SystemError> { Err(crate::system::SystemError::NotImplemented) }
+    fn is_executable(&self, _p : &str) -> Result<bool, crate::system::SystemError> { Err(crate::system::SystemError::NotImplemented) }
+    fn set_is_executable(&mut self, _p : &str, _e : bool) -> Result<(), crate::system::SystemError> { Err(crate::system::SystemError::NotImplemented) }
+    fn execute_command(&mut self, _c : crate::system::CommandScript) -> Vec<Result<crate::system::CommandLineOutput, crate::system::SystemError>> { vec![] }
+}
+
+pub fn run_file_chunks_case(bytes : &[u8]) -> Vec<Violation>
+{
+    /*  n(8) j(8) cj(1) exists(1) fail_at(8), then per read: k(8) fill(256) */
+    let u = |i : usize| -> usize { let mut x = 0usize; for b in 0..8 { x |= (bytes.get(i + b).cloned().unwrap_or(0) as usize) << (8 * b); } x };
+    let n = u(0);
+    let j = u(8);
+    let cj = bytes.get(16).cloned().unwrap_or(0);
+    let mut pos = 26;
+    let mut chunks = vec![];
+    let mut total = 0usize;
+    while total < n && pos + 8 <= bytes.len()
+    {
+        let k = std::cmp::max(1, std::cmp::min(u(pos), std::cmp::min(256, n - total)));
+        let mut c : Vec<u8> = (0..k).map(|i| bytes.get(pos + 8 + i).cloned().unwrap_or(0x55)).collect();
+        if j >= total && j - total < k { c[j - total] = cj; }
+        chunks.push(c);
+        total += k;
+        pos += 8 + 256;
+    }
+    if total < n { chunks.push(vec![0x55; n - total]); }
+    let content : Vec<u8> = chunks.iter().flatten().cloned().collect();
+    let sys = ChunkSys { chunks : std::sync::Arc::new(chunks.clone()) };
+    let mut v = vec![];
+    match TicketFactory::from_file(&sys, "p")
+    {
+        Ok(mut f) =>
+        {
+            let got = f.result();
+            let want = hash_bytes(&content);
+            if got != want
+            {
+                v.push(Violation { properties : vec!["C15"], role : "from_file: the hash of a file read in short chunks is not the hash of its bytes".into(),
+                    what : format!("file of {} bytes read in chunks of {:?}: from_file gives {}, SHA-256 of the bytes is {}", content.len(), chunks.iter().map(|c| c.len()).collect::<Vec<_>>(), got, want) });
+            }
+        },
+        Err(e) => v.push(Violation { properties : vec!["C15"], role : "from_file: hashing a readable file failed".into(), what : format!("{}", e) }),
+    }
+    v
+}
+
+/*  ---- C18 coarse clock: a reaching history through the public API ----
+    One tick per user action and per ruler invocation.  A two-target rule whose outputs swap
+    when its sources are swapped, and a dependent of the second target.  After build / swap /
+    build / swap back / build, the third build restores both targets from the cache; the file
+    restored into t2 was written in the same tick as the file the table still describes. */
+pub fn run_coarse_history() -> Vec<Violation>
+{
+    use crate::build::{build, BuildParams};
+    use crate::printer::EmptyPrinter;
+    let rules = "\
+t1
+t2
+:
+a
+b
+:
+mycat
+a
+t1
+;
+mycat
+b
+t2
+:
+
+d
+:
+t2
+:
+mycat
+t2
+d
+:
+";
+    let run = |erase_table : bool| -> (String, Vec<String>)
+    {
+        let mut sys = FakeSystem::new(100);
+        let tick = |s : &mut FakeSystem| s.time_passes(1_000_000);
+        let put = |s : &mut FakeSystem, p : &str, c : &str| { write_str_to_file(s, p, c).unwrap(); };
+        put(&mut sys, "build.rules", rules); tick(&mut sys);
+        put(&mut sys, "a", "X\n"); tick(&mut sys);
+        put(&mut sys, "b", "Y\n"); tick(&mut sys);
+        let mut verdicts = vec![];
+        let mut go = |s : &mut FakeSystem|
+        {
+            if erase_table && s.is_file(".ruler/current_file_states") { s.remove_file(".ruler/current_file_states").unwrap(); }
+            let r = build(s.clone(), &mut EmptyPrinter::new(), BuildParams::from_all(".ruler".to_string(), vec!["build.rules".to_string()], None, None));
+            verdicts.push(match r { Ok(()) => "ok".to_string(), Err(e) => format!("{}", e) });
+            s.time_passes(1_000_000);
+        };
+        go(&mut sys);
+        put(&mut sys, "a", "Y\n"); tick(&mut sys);
+        put(&mut sys, "b", "X\n"); tick(&mut sys);
+        go(&mut sys);
+        put(&mut sys, "a", "X\n"); tick(&mut sys);
+        put(&mut sys, "b", "Y\n"); tick(&mut sys);
+        go(&mut sys);
+        let d = String::from_utf8(read_file(&sys, "d").unwrap_or(vec![])).unwrap_or("?".to_string());
+        (d, verdicts)
+    };
+    let (with_table, v1) = run(false);
+    let (without_table, v2) = run(true);
+    let mut v = vec![];
+    if with_table != "Y\n" || with_table != without_table || v1 != v2
+    {
+        v.push(Violation { properties : vec!["C18", "C01"], role : "handle_rule_node: the re-hash after a restore trusts the pre-restore table entry (coarse clock)".into(),
+            what : format!("history: build; swap sources a<->b; build; swap back; build (one tick per action). Final content of d (= copy of t2, from scratch \"Y\\n\"): {:?} with the file-state table, {:?} with the table erased before every build; verdicts {:?} / {:?}", with_table, without_table, v1, v2) });
+    }
+    v
+}
+
 fn parse_script(path : &str) -> (String, Vec<u8>)
 {
     let txt = std::fs::read_to_string(format!("{}.txt", path)).expect("replay script .txt");
@@ -753,12 +1093,102 @@ pub fn run_harness_natively(harness : &str, bytes : &[u8]) -> (Vec<Violation>, b
         let pre = prestate::decode(&mut raw, n, Clock::Distinct, true);
         run_clean_then_build(&pre)
     }
+    else if harness.starts_with("interf_resolve")
+    {
+        let pre = prestate::decode(&mut raw, n, Clock::Distinct, true);
+        /*  after the raw vector come the environment's choices, in the order SymSystem drew them:
+            go(1 byte) [k(8 bytes LE) add(1) [mtime(1) exec(1) inode(1)]] per interference point */
+        let rest : Vec<u8> = bytes.iter().skip(NRAW).cloned().collect();
+        let mut peer = vec![];
+        let mut i = 0;
+        let mut acted = 0;
+        while i < rest.len() && acted < 2
+        {
+            let go = rest[i] != 0; i += 1;
+            if !go { peer.push(crate::hooksys::Peer::Nothing); continue; }
+            if i + 9 > rest.len() { break; }
+            let k = rest[i] as usize; i += 8;
+            let add = rest[i] != 0; i += 1;
+            let name = format!("{}/{}", CACHE, hash_content(k as u8).human_readable());
+            if add
+            {
+                if i + 3 > rest.len() { break; }
+                let (m, e) = (rest[i], rest[i + 1] != 0); i += 3;
+                peer.push(crate::hooksys::Peer::Add { name, bytes : content_bytes(k as u8), mtime_s : m, exec : e });
+            }
+            else
+            {
+                peer.push(crate::hooksys::Peer::Remove { name });
+            }
+            acted += 1;
+        }
+        run_rule_step_hooked(&pre, [false, false], false, true, peer, 2)
+    }
+    else if harness.starts_with("coarse_rule_norebuild")
+    {
+        /*  the step counterexample (a cache entry sharing the mtime of the table entry of the target it
+            is restored into) is reached by the fixed history below through build() */
+        run_coarse_history()
+    }
+    else if harness.starts_with("unit_history_insert")
+    {
+        run_history_insert_case(bytes)
+    }
+    else if harness.starts_with("init_any_partial_directory")
+    {
+        run_init_case(bytes)
+    }
+    else if harness.starts_with("file_chunks")
+    {
+        run_file_chunks_case(bytes)
+    }
+    else if harness.starts_with("glue_handle_rule_node")
+    {
+        /*  n(8) r0 r1 resolve_err rebuild_err tail_err: realise the resolutions as a pre-state of the public function */
+        let nt = if bytes.get(0).cloned().unwrap_or(1) == 2 { 2 } else { 1 };
+        let r = [bytes.get(8).cloned().unwrap_or(0) % 4, bytes.get(9).cloned().unwrap_or(0) % 4];
+        let rebuild_err = bytes.get(11).cloned().unwrap_or(0) != 0;
+        let mut raw0 = Raw { bytes : [0u8; NRAW], pos : 0 };
+        let mut pre = prestate::decode(&mut raw0, nt, Clock::Distinct, true);
+        pre.has_history = true;
+        pre.remembered = [1, 2];
+        pre.out = [1, 2];
+        pre.fresh = 6; pre.fresh2 = 7;
+        for k in 0..5 { pre.cache[k].present = false; pre.cache[k].mtime = k as u8; }
+        for i in 0..nt
+        {
+            pre.table[i].known = false;
+            match r[i]
+            {
+                0 => { pre.ws[i].present = true; pre.ws[i].content = pre.remembered[i]; pre.ws[i].mtime = 5; },
+                1 | 2 => { pre.ws[i].present = false; pre.cache[pre.remembered[i] as usize].present = true; },
+                _ => { pre.ws[i].present = false; },
+            }
+        }
+        pre.ws[2].present = false;
+        run_rule_step(&pre, [false, false], rebuild_err, true)
+    }
+    else if harness.starts_with("step_rebuild_node")
+    {
+        let mut pre = prestate::decode(&mut raw, n, Clock::Distinct, false);
+        /*  make the public function take the rebuild path with the history entry as decoded */
+        for i in 0..n
+        {
+            pre.ws[i].present = false;
+            pre.cache[pre.remembered[i] as usize].present = false;
+        }
+        run_rule_step(&pre, [false, false], false, false)
+    }
+    else if harness.starts_with("ser_") || harness.starts_with("canon_") || harness.starts_with("identity_")
+    {
+        run_identity_case(harness, bytes)
+    }
     else if harness.starts_with("sort_dag")
     {
         /*  harness name: sort_dag_<n>[_s<ns>][_two_targets], e.g. sort_dag_3_s2 */
         let fixed_n = harness.trim_start_matches("sort_dag_").chars().next().and_then(|c| c.to_digit(10)).map(|d| d as usize);
         let fixed_ns = harness.find("_s").and_then(|i| harness[i + 2..].chars().next()).and_then(|c| c.to_digit(10)).map(|d| d as usize);
-        run_sort_case(bytes, harness.contains("two_targets"), fixed_n, fixed_ns)
+        run_sort_case(bytes, harness.contains("two_targets"), fixed_n, fixed_ns, harness.contains("_ft"))
     }
     else if harness.starts_with("step_leaf")
     {
